@@ -167,10 +167,16 @@ def report(pid, properties_path, repo):
     mech = []
     for m in anchors.get('mechanism', []):
         body_all, missed_all, funcs_all = [], [], []
+        segs = []
         for seg in str(m.get('where', '')).split(';'):
-            seg = seg.strip()
+            seg = seg.strip().split(' ')[0]
+            if ':' not in seg:
+                continue
+            f, rngs = seg.rsplit(':', 1)
+            for rng in rngs.split(','):       # "file.py:58-104,269-382"
+                segs.append((f, rng))
+        for f, rng in segs:
             try:
-                f, rng = seg.rsplit(':', 1)
                 lo, hi = (rng.split('-') + [rng])[:2]
                 lo, hi = int(lo), int(hi)
             except Exception:
